@@ -5,6 +5,7 @@ import json
 import multiprocessing
 import os
 import random
+import signal
 import sys
 import time
 import traceback
@@ -91,25 +92,135 @@ def _run_job(arg):
 
 
 def run_jobs(fn, jobs, mir_text, src_root, extra=None, procs=None):
-    """run fn(job) for every job in a fork pool; fn must be a module-level function"""
+    """run fn(job) for every job in forked worker processes; fn must be a module-level function.
+    Own single-threaded scheduler (no multiprocessing.Pool: its handler threads fork replacement workers from a threaded
+    parent, which deadlocked children twice).  A worker that dies (crash, OOM kill) makes its job inconclusive and is
+    replaced; a global deadline turns a hang into an inconclusive result."""
+    import pickle
+    import select
+    import struct
     procs = procs or min(16, os.cpu_count() or 4, max(1, len(jobs)))
     if procs <= 1 or len(jobs) <= 1:
         _init_worker(mir_text, src_root, extra)
         return [_run_job((fn, j)) for j in jobs]
-    ctx = multiprocessing.get_context('fork')
-    # no maxtasksperchild: replacement workers would be forked from the pool's (threaded) parent later on, which can
-    # deadlock in the child; a global deadline turns a hung pool into an inconclusive result instead of a hang
-    deadline = float(os.environ.get('VERIF_POOL_DEADLINE_S', '7200'))
-    pool = ctx.Pool(procs, initializer=_init_worker, initargs=(mir_text, src_root, extra))
-    try:
-        ar = pool.map_async(_run_job, [(fn, j) for j in jobs], chunksize=1)
+    deadline = time.time() + float(os.environ.get('VERIF_POOL_DEADLINE_S', '7200'))
+    results = [None] * len(jobs)
+    nxt = 0
+    workers = {}          # result fd -> [pid, job fd (write), current job index, read buffer]
+
+    def send(fd, obj):
+        data = pickle.dumps(obj)
+        os.write(fd, struct.pack('<Q', len(data)))
+        view = memoryview(data)
+        while view:
+            n = os.write(fd, view[:1 << 16])
+            view = view[n:]
+
+    def spawn():
+        jr, jw = os.pipe()          # parent -> worker: job indices
+        rr, rw = os.pipe()          # worker -> parent: results
+        sys.stdout.flush()
+        sys.stderr.flush()
+        pid = os.fork()
+        if pid == 0:
+            code = 0
+            try:
+                os.close(jw)
+                os.close(rr)
+                for fd_ in list(workers):
+                    try:
+                        os.close(fd_)
+                        os.close(workers[fd_][1])
+                    except OSError:
+                        pass
+                signal.signal(signal.SIGTERM, signal.SIG_DFL)
+                signal.signal(signal.SIGINT, signal.SIG_DFL)
+                _init_worker(mir_text, src_root, extra)
+                while True:
+                    hdr = os.read(jr, 8)
+                    if len(hdr) < 8:
+                        break
+                    k = struct.unpack('<q', hdr)[0]
+                    if k < 0:
+                        break
+                    send(rw, (k, _run_job((fn, jobs[k]))))
+            except BaseException:
+                code = 1
+            finally:
+                os._exit(code)
+        os.close(jr)
+        os.close(rw)
+        workers[rr] = [pid, jw, None, b'']
+        return rr
+
+    def feed(rr):
+        nonlocal nxt
+        w = workers[rr]
+        if nxt < len(jobs):
+            w[2] = nxt
+            os.write(w[1], struct.pack('<q', nxt))
+            nxt += 1
+        else:
+            w[2] = None
+            try:
+                os.write(w[1], struct.pack('<q', -1))
+            except OSError:
+                pass
+
+    def retire(rr, kill=False):
+        w = workers.pop(rr)
+        if kill:
+            try:
+                os.kill(w[0], signal.SIGKILL)
+            except OSError:
+                pass
+        for fd_ in (rr, w[1]):
+            try:
+                os.close(fd_)
+            except OSError:
+                pass
         try:
-            return ar.get(timeout=deadline)
-        except multiprocessing.TimeoutError:
-            return [{'status': 'inconclusive', 'reason': 'worker pool exceeded %.0f s' % deadline, 'job': 'pool'}]
+            os.waitpid(w[0], 0)
+        except OSError:
+            pass
+
+    try:
+        for _ in range(min(procs, len(jobs))):
+            feed(spawn())
+        while workers:
+            left = deadline - time.time()
+            if left <= 0:
+                break
+            ready, _, _ = select.select(list(workers), [], [], min(left, 30.0))
+            for rr in ready:
+                w = workers[rr]
+                chunk = os.read(rr, 1 << 20)
+                if not chunk:
+                    # worker gone without an answer for its job
+                    k = w[2]
+                    retire(rr)
+                    if k is not None and results[k] is None:
+                        results[k] = {'status': 'inconclusive', 'reason': 'worker process died (killed or crashed) while running this job',
+                                      'job': repr(jobs[k])[:160]}
+                    if nxt < len(jobs):
+                        feed(spawn())
+                    continue
+                w[3] += chunk
+                while len(w[3]) >= 8:
+                    n = struct.unpack('<Q', w[3][:8])[0]
+                    if len(w[3]) < 8 + n:
+                        break
+                    k, r = pickle.loads(w[3][8:8 + n])
+                    w[3] = w[3][8 + n:]
+                    results[k] = r
+                    feed(rr)
     finally:
-        pool.terminate()
-        pool.join()
+        for rr in list(workers):
+            retire(rr, kill=True)
+    for k, r in enumerate(results):
+        if r is None:
+            results[k] = {'status': 'inconclusive', 'reason': 'worker pool exceeded its deadline before this job finished', 'job': repr(jobs[k])[:160]}
+    return results
 
 
 # ---------------------------------------------------------------- known findings
